@@ -93,6 +93,14 @@ type Exec struct {
 	crashedIn  string
 	schedTrace []string
 	maxSched   int
+	// sleep-set partial-order reduction
+	preAt      map[int][]sleepEntry
+	sleep      []sleepEntry
+	fpOn       bool
+	fpMark     int
+	fpR, fpW   map[int]bool
+	sleepBlocked int
+	outcome    string
 }
 
 type aliasRec struct {
@@ -121,6 +129,7 @@ type Options struct {
 	MaxCallDepth int
 	AppendFork   bool // fork append growth over {needed, 2*needed}
 	Threads      bool // interpret go statements as schedulable threads
+	NoPOR        bool // disable the sleep-set reduction of interleavings
 	Verbose      bool
 }
 
@@ -199,6 +208,9 @@ func (ex *Exec) load(p Ptr) Value {
 	if p.Obj == nil {
 		ex.goPanicf("invalid memory address or nil pointer dereference")
 	}
+	if ex.fpOn && (p.Obj.ID <= ex.fpMark) {
+		ex.fpR[p.Obj.ID] = true
+	}
 	v := ex.objVal(p.Obj)
 	for _, i := range p.Path {
 		v = child(v, i)
@@ -214,6 +226,9 @@ func (ex *Exec) load(p Ptr) Value {
 func (ex *Exec) store(p Ptr, nv Value) {
 	if p.Obj == nil {
 		ex.goPanicf("invalid memory address or nil pointer dereference")
+	}
+	if ex.fpOn && (p.Obj.ID <= ex.fpMark) {
+		ex.fpW[p.Obj.ID] = true
 	}
 	root := ex.objVal(p.Obj)
 	if recs, ok := ex.aliases[p.Obj]; ok && len(p.Path) == 1 {
